@@ -2,7 +2,7 @@
     Property theorems (statements only; proofs are in CfgState/DiffProofs.v). *)
 From stdpp Require Import gmap strings.
 From Coq Require Import NArith.
-From SV Require Import CfgState.Model CfgState.Spec CfgState.Gen CfgState.GenSteps CfgState.DiffProofs.
+From SV Require Import CfgState.Model CfgState.Spec CfgState.Gen CfgState.GenSteps CfgState.DiffProofs CfgState.DiffApply.
 Open Scope N_scope.
 
 (** [DiffMap] (the merge-join used for clusters and backends) is sound and
@@ -46,6 +46,50 @@ Qed.
 (** the difference between equal configurations is empty (every section) *)
 Theorem diff_same_empty : forall a, diff a a = [].
 Proof. exact DiffProofs.diff_same_empty. Qed.
+
+(** Full statement of C06 on the model:
+      apply_diff : InvR A -> InvR B ->
+        replay (diff A B) A = (B', 0) /\ norm_set B' = norm_set B.
+    PROVED section by section so far: the http and https frontend sections
+    ([apply_diff_fronts]: removals then additions, keyed by the route string,
+    for any two maps whose keys are the keys of their values), and end to end
+    for configurations that differ in their http/https frontends only
+    ([apply_diff_fronts_only], exact equality, every request accepted).
+    NOT PROVED (covered by the correspondence runs only): the listener
+    sections (removed / added / changed / late activation), clusters and
+    backends (through the merge-join, whose correctness IS proved above),
+    tcp/udp frontends, certificates. *)
+Theorem apply_diff_fronts :
+  forall fingerprint inames hc_valid steps tls my other s,
+    get_f tls s = my ->
+    (forall k f, my !! k = Some f -> k = front_key f) ->
+    (forall k f, other !! k = Some f -> k = front_key f /\ (f_pos f <? 3) = true) ->
+    replay fingerprint inames hc_valid steps (diff_fronts tls my other) s = (set_f tls s other, 0%nat).
+Proof. intros. apply DiffApply.apply_diff_fronts; assumption. Qed.
+
+Theorem apply_diff_fronts_only :
+  forall fingerprint inames hc_valid steps A B,
+    clusters B = clusters A -> backends B = backends A ->
+    http_l B = http_l A -> https_l B = https_l A -> tcp_l B = tcp_l A -> udp_l B = udp_l A ->
+    tcp_f B = tcp_f A -> udp_f B = udp_f A -> certs B = certs A ->
+    (forall tls k f, get_f tls A !! k = Some f -> k = front_key f) ->
+    (forall tls k f, get_f tls B !! k = Some f -> k = front_key f /\ (f_pos f <? 3) = true) ->
+    replay fingerprint inames hc_valid steps (diff A B) A = (B, 0%nat).
+Proof. intros. apply DiffApply.apply_diff_fronts_only; assumption. Qed.
+
+(** non-vacuity of [apply_diff_fronts_only]: a route whose payload changes, one removed, one added *)
+Example apply_diff_nonvacuous :
+  let fp := fun _ : N => @None N in
+  let nm := fun _ : N => @None (list N) in
+  let hc := fun _ : N => true in
+  let f1 := Front 0 1 0 2 None (Some 1) 2 5 in
+  let f1' := Front 0 1 0 2 None (Some 2) 2 9 in
+  let f2 := Front 0 2 0 0 None None 0 0 in
+  let f3 := Front 1 0 2 1 (Some 1) (Some 0) 1 3 in
+  let A := set_http_f empty_state (<[front_key f1 := f1]> (<[front_key f2 := f2]> ∅)) in
+  let B := set_http_f empty_state (<[front_key f1' := f1']> (<[front_key f3 := f3]> ∅)) in
+  bool_decide (replay fp nm hc steps_of (diff A B) A = (B, 0%nat)) = true /\ length (diff A B) = 4%nat.
+Proof. vm_compute. split; reflexivity. Qed.
 
 (** non-vacuity of [diff_map_correct]: two sorted cluster lists with one key of each kind *)
 Example diff_map_nonvacuous :
